@@ -21,7 +21,7 @@ EXTENDS Expr, Sequences, FiniteSets, SequencesExt
 Failed(c) == {n \in DOMAIN c : ~c[n]}
 SeqSet(s) == {s[i] : i \in 1..Len(s)}
 
-EmptyState == [alive |-> {}, vals |-> << >>, sz |-> << >>, rl |-> << >>, rmode |-> << >>, cmode |-> << >>]
+EmptyState == [alive |-> {}, vals |-> << >>, sz |-> << >>, rl |-> << >>, rmode |-> << >>, cmode |-> << >>, memo |-> << >>]
 
 CKey(o, b) == o \o "::" \o b
 
@@ -87,10 +87,39 @@ Sol(W, S, call, env) ==
 \* not count: the library has no obligation there, so a failure is accepted)
 DefSat(W, S, call, env) ==
   \E e \in Candidates(W, S, call, env) : WellTyped(W, e) /\ HardAll(W, S, call, e, S.sz) = "T"
+\* candidates when random-size lists take part: every admissible size, every value of the exposed elements
+ListsOfElems(W, usz) == UNION {{ElemPath(l, i) : i \in 0..W.lists[l].cap} : l \in usz}
+CandSz(W, S, call, env) ==
+  LET roots == SeqSet(call.roots)
+      usz   == UsedSizes(W, S, roots)
+      fixed == DOMAIN env \ ListsOfElems(W, usz)
+  IN UNION {
+       LET sz2   == [l \in DOMAIN S.sz |-> IF l \in usz THEN szf[l] ELSE S.sz[l]]
+           elems == UNION {{ElemPath(l, i - 1) : i \in 1..szf[l]} : l \in usz}
+           dom   == fixed \cup elems
+           S2    == [S EXCEPT !.sz = sz2, !.vals = [x \in dom |-> IF x \in DOMAIN env THEN env[x] ELSE Zero(TypeOfPath(W, x).w)]]
+           used  == UsedRand(W, S2, roots)
+       IN {<<[x \in dom |-> IF x \in used THEN f[x] ELSE S2.vals[x]], sz2>> :
+              f \in [used -> UNION {TypeVals(W, x) : x \in used}]}
+       : szf \in [usz -> 0..3] }
+DefSatSz(W, S, call, env) ==
+  \E c \in CandSz(W, S, call, env) :
+     /\ \A l \in DOMAIN c[2] : c[2][l] <= W.lists[l].cap
+     /\ WellTyped(W, c[1])
+     /\ HardAll(W, [S EXCEPT !.vals = c[1], !.sz = c[2]], call, c[1], c[2]) = "T"
+SmallSz(W, S, call) ==
+  LET usz == UsedSizes(W, S, SeqSet(call.roots)) IN
+  usz # {} /\ Cardinality(usz) <= 2 /\ \A l \in usz : W.lists[l].w <= 2 /\ ~W.lists[l].isobj
 TotalBits(W, S, call) ==
   LET used == UsedRand(W, S, SeqSet(call.roots)) IN
   IF used = {} THEN 0 ELSE
   LET RECURSIVE Sum(_)
+      Sum(X) == IF X = {} THEN 0 ELSE LET x == CHOOSE y \in X : TRUE IN TypeOfPath(W, x).w + Sum(X \ {x})
+  IN Sum(used)
+FixedBits(W, S, call) ==
+  LET roots == SeqSet(call.roots)
+      used == UsedRand(W, S, roots) \ ListsOfElems(W, UsedSizes(W, S, roots))
+      RECURSIVE Sum(_)
       Sum(X) == IF X = {} THEN 0 ELSE LET x == CHOOSE y \in X : TRUE IN TypeOfPath(W, x).w + Sum(X \ {x})
   IN Sum(used)
 Small(W, S, call) == TotalBits(W, S, call) <= 12 /\ UsedSizes(W, S, SeqSet(call.roots)) = {}
@@ -168,7 +197,8 @@ ConstructEffect(W, S, ev) ==
       sz    |-> [l \in ls |-> IF W.lists[l].isobj THEN W.lists[l].n ELSE Len(W.lists[l].init)] @@ S.sz,
       rl    |-> [r \in rr |-> W.rls[r].init] @@ S.rl,
       rmode |-> [p \in sc \cup ls \cup ob |-> TRUE] @@ S.rmode,
-      cmode |-> [k \in UNION {{CKey(p, b) : b \in BlockNames(W, W.objs[p].cls)} : p \in ob} |-> TRUE] @@ S.cmode]
+      cmode |-> [k \in UNION {{CKey(p, b) : b \in BlockNames(W, W.objs[p].cls)} : p \in ob} |-> TRUE] @@ S.cmode,
+      memo  |-> S.memo]
 ConstructClauses(W, S, ev) ==
   [ not_yet_alive   |-> ev.o \notin S.alive,
     no_exception    |-> IF "fired" \in DOMAIN ev /\ ev.fired THEN ev.exc = "Injected" ELSE ev.exc = "none",
@@ -221,7 +251,8 @@ ListClauses(W, S, ev) ==
   [ known_list |-> ev.p \in DOMAIN S.sz, no_exception |-> ev.exc = "none",
     within_cap |-> Len(ListNewSeq(W, S, ev)) <= W.lists[ev.p].cap,
     facade_is_edited_list |-> ev.exc = "none" => ev.post = Proj(ListEffect(W, S, ev)),
-    facade_views_agree |-> ev.exc = "none" => \A vw \in DOMAIN ev.views : ev.views[vw] = ListNewSeq(W, S, ev),
+    facade_views_agree |-> ev.exc = "none" => /\ ev.views.index = ListNewSeq(W, S, ev) /\ ev.views.iter = ListNewSeq(W, S, ev)
+                                              /\ ev.views.len = Len(ListNewSeq(W, S, ev)) /\ ev.views.size = ev.views.len,
     idle_after |-> Idle(ev.stk) ]
 
 (* --- a randomize call (composite of BeginCall . Pre* . Solve . Post* . EndCall) *)
@@ -257,11 +288,16 @@ CallClauses(W, S, ev) ==
     in_type            |-> \A x \in DOMAIN ev.post.v : x \in used => InType(W, x, ev.post.v[x]),  \* C01
     ok_hard_hold       |-> ok => HardAll(W, Sm, call, ev.post.v, ev.post.sz) # "F",               \* C01
     ok_soft_maximal    |-> (ok /\ Small(W, Sm, call)) => SoftAccept(W, Sm, call, ev.post.v),       \* C05
-    fail_iff_unsat     |-> (ev.exc = "SolveFailure" /\ Small(W, Sm, call))
-                               => ~DefSat(W, Sm, call, mid.v),                                   \* C02
+    fail_iff_unsat     |-> /\ (ev.exc = "SolveFailure" /\ Small(W, Sm, call)) => ~DefSat(W, Sm, call, mid.v)     \* C02
+                           /\ (ev.exc = "SolveFailure" /\ SmallSz(W, Sm, call) /\ FixedBits(W, Sm, call) <= 6)
+                                 => ~DefSatSz(W, Sm, call, mid.v),                                \* C02/C04
     facade_consistent  |-> ok => \A l \in DOMAIN ev.post.sz :
                                {ElemPath(l, i - 1) : i \in 1..ev.post.sz[l]} \subseteq DOMAIN ev.post.v
                                \/ W.lists[l].isobj,                                                \* C04
+    list_views_agree   |-> ok => \A l \in DOMAIN ev.views :                                       \* C04
+                               LET seq == [i \in 1..ev.post.sz[l] |-> ev.post.v[ElemPath(l, i - 1)]] IN
+                               /\ ev.views[l].len = ev.post.sz[l] /\ ev.views[l].size = ev.post.sz[l]
+                               /\ ev.views[l].index = seq /\ ev.views[l].iter = seq,
     pre_once_each      |-> /\ NoDup(CbSeq(ev, "pre"))
                            /\ IF FaultPh(ev) \in {"pre", "body"}
                               THEN CbObjs(ev, "pre") \subseteq pre_objs
@@ -302,6 +338,96 @@ ProbeClauses(W, S, ev) ==
                         h = "U" \/ (ev.rows[i][k + 1] = 1) = (h = "T"),
     state_restored |-> ev.post = Proj(S),
     idle_after    |-> Idle(ev.stk) ]
+
+(* --- I2: exhaustive draw-path exploration of one call (stuttering) ------------------------ *)
+\* ev.paths : the used-random scalar paths reported (all of them); ev.dist : sequence of
+\*   [fail: BOOLEAN, o: sequence of unsigned values (one per path), p: <<num, den>>] with exact reduced probabilities;
+\* ev.marg[j] : sequence of [v, p] - the exact marginal of path j; ev.complete : every draw sequence was executed;
+\* ev.glob : draws taken from Python's global random module; ev.bounds : hook payload, path |-> sequence of
+\*   <<lo, hi>> (the value ranges inferred for the call), ev.unbounded: paths without an inferred domain.
+Pos(p) == p[1] > 0
+EnvOfRow(W, S, ev, row) ==
+  LET k == Len(ev.paths) IN
+  [x \in DOMAIN S.vals |->
+     IF \E j \in 1..k : ev.paths[j] = x
+     THEN NatBits(row[CHOOSE j \in 1..k : ev.paths[j] = x], TypeOfPath(W, x).w)
+     ELSE S.vals[x]]
+\* signed / unsigned integer value of a small bit vector, for comparison with inferred bounds
+IntOf(W, x, v) == IF TypeOfPath(W, x).s /\ Msb(v) = 1 THEN 0 - ToNat(Neg(v)) ELSE ToNat(v)
+InRanges(n, rs) == \E i \in 1..Len(rs) : rs[i][1] <= n /\ n <= rs[i][2]
+\* top-level dist statements of the enabled blocks of the call's root object whose target is a plain field
+DistStmts(W, S, call) ==
+  LET o == call.roots[1]
+      blks == {b \in StaticBlockNames(W, W.objs[o].cls) : S.cmode[CKey(o, b)]}
+  IN UNION {LET body == FindBlock(W, W.objs[o].cls, b).body IN
+            {body[i] : i \in {j \in 1..Len(body) : body[j].k = "dist" /\ body[j].e.k = "f"}} : b \in blks}
+\* a/b = c/d on reduced or unreduced pairs
+FracEq(p, q) == p[1] * q[2] = q[1] * p[2]
+
+ExploreClauses(W, S, ev) ==
+  LET call  == ev.call
+      roots == SeqSet(call.roots)
+      used  == UsedRand(W, S, roots)
+      k     == Len(ev.paths)
+      sol   == Sol(W, S, call, S.vals)
+      okrows == {ev.dist[i].o : i \in {j \in 1..Len(ev.dist) : ~ev.dist[j].fail /\ Pos(ev.dist[j].p)}}
+      failmass == \E i \in 1..Len(ev.dist) : ev.dist[i].fail /\ Pos(ev.dist[i].p)
+      feas(j) == {ToNat(e[ev.paths[j]]) : e \in sol}
+      supp(j) == {ev.marg[j][i].v : i \in {n \in 1..Len(ev.marg[j]) : Pos(ev.marg[j][n].p)}}
+      probOf(j, v) == LET I == {n \in 1..Len(ev.marg[j]) : ev.marg[j][n].v = v} IN
+                      IF I = {} THEN <<0, 1>> ELSE ev.marg[j][CHOOSE n \in I : TRUE].p
+      C(own) == Ctx(W, S, S.vals, S.sz, own)
+  IN
+  [ pins_all_random   |-> used = SeqSet(ev.paths),
+    state_restored    |-> ev.post = Proj(S) /\ ev.pre = Proj(S),
+    no_exception      |-> ev.other = 0,                                                            \* C02 / C20
+    no_global_random  |-> ev.glob = 0,                                                             \* C09
+    mass_is_one       |-> ev.complete => ev.mass[1] = ev.mass[2],
+    support_in_sol    |-> \A r \in okrows : HardAll(W, S, call, EnvOfRow(W, S, ev, r), S.sz) # "F",   \* C01
+    fail_iff_unsat    |-> (failmass => sol = {}) /\ ((ev.complete /\ sol # {}) => ~failmass),         \* C02 / C20 no corner
+    support_is_feasible |-> ev.complete => \A j \in 1..k : supp(j) = feas(j),                        \* C14, C20
+    bounds_cover_feasible |-> \A j \in 1..k :                                                        \* C14 (hook)
+                               ev.paths[j] \in DOMAIN ev.bounds =>
+                                 \A e \in sol : InRanges(IntOf(W, ev.paths[j], e[ev.paths[j]]), ev.bounds[ev.paths[j]]),
+    dist_weights      |-> (ev.complete /\ ev.dist_free # << >>) =>                                  \* C15
+                             \A st \in DistStmts(W, S, call) :
+                               LET f == AbsP(call.roots[1], st.e.p) IN
+                               f \in SeqSet(ev.dist_free) =>
+                               LET j == CHOOSE n \in 1..k : ev.paths[n] = f
+                                   wt(i) == ToNat(Eval(C(call.roots[1]), st.ws[i].w, 0))
+                                   tot == LET RECURSIVE Sm(_) Sm(i) == IF i > Len(st.ws) THEN 0 ELSE wt(i) + Sm(i + 1) IN Sm(1)
+                                   lo(i) == IF st.ws[i].it.k = "v" THEN ToNat(Eval(C(call.roots[1]), st.ws[i].it.e, 0))
+                                            ELSE ToNat(Eval(C(call.roots[1]), st.ws[i].it.lo, 0))
+                                   hi(i) == IF st.ws[i].it.k = "v" THEN lo(i) ELSE ToNat(Eval(C(call.roots[1]), st.ws[i].it.hi, 0))
+                                   \* exact probability of value v: sum over the entries containing it of w/(tot*size)
+                                   P == LET RECURSIVE Pr(_) Pr(i) == IF i > Len(st.ws) THEN 1 ELSE (hi(i) - lo(i) + 1) * Pr(i + 1) IN Pr(1)
+                                   num(v) == LET RECURSIVE Sm(_)
+                                                 Sm(i) == IF i > Len(st.ws) THEN 0
+                                                          ELSE (IF lo(i) <= v /\ v <= hi(i) THEN wt(i) * (P \div (hi(i) - lo(i) + 1)) ELSE 0) + Sm(i + 1)
+                                             IN Sm(1)
+                               IN \A v \in 0..(2 ^ TypeOfPath(W, f).w - 1) : FracEq(probOf(j, v), <<num(v), tot * P>>),
+    order_uniform     |-> (ev.complete /\ ev.uniform # << >>) =>                                     \* C20
+                             \A j \in 1..k : ev.paths[j] \in SeqSet(ev.uniform) =>
+                                LET F == feas(j) IN
+                                (ev.paths[j] \in DOMAIN ev.bounds
+                                 /\ {m \in 0..(2 ^ TypeOfPath(W, ev.paths[j]).w - 1) : InRanges(m, ev.bounds[ev.paths[j]])} = F)
+                                => \A v \in F : FracEq(probOf(j, v), <<1, Cardinality(F)>>),
+    memo_equal        |-> (ev.complete /\ ev.memo_eq # "") =>                                        \* C20: program pairs
+                             (ev.memo_eq \in DOMAIN S.memo /\ S.memo[ev.memo_eq] = ev.marg[1]),
+    idle_after        |-> Idle(ev.stk) ]
+ExploreEffect(W, S, ev) == IF ev.memo_put = "" THEN S ELSE [S EXCEPT !.memo = (ev.memo_put :> ev.marg[1]) @@ S.memo]
+
+(* --- weighted selection helpers (C15): distselect / randselect observed for every seed ---------- *)
+\* ev.weights : sequence of naturals, ev.results[s] : index (1-based) chosen when the generator returns seed s
+SelectClauses(W, S, ev) ==
+  LET tot == LET RECURSIVE Sm(_) Sm(i) == IF i > Len(ev.weights) THEN 0 ELSE ev.weights[i] + Sm(i + 1) IN Sm(1) IN
+  [ every_seed_observed |-> Len(ev.results) = tot,
+    no_exception        |-> ev.exc = "none",
+    index_in_range      |-> \A s \in 1..Len(ev.results) : ev.results[s] \in 1..Len(ev.weights),
+    weight_exact        |-> \A i \in 1..Len(ev.weights) :
+                               Cardinality({s \in 1..Len(ev.results) : ev.results[s] = i}) = ev.weights[i],   \* w_i / total
+    zero_weight_never   |-> \A s \in 1..Len(ev.results) : ev.weights[ev.results[s]] > 0,
+    callback_is_choice  |-> ev.kind = "randselect" => ev.called = ev.results ]
 
 (* ---------------- diagnostics attached to a FAIL verdict (explanatory only) ------------- *)
 ProbeDiag(W, S, ev) ==
@@ -347,6 +473,8 @@ Clauses(W, S, ev) ==
     [] ev.op \in {"l_append", "l_extend", "l_assign", "l_clear", "l_setitem"} -> ListClauses(W, S, ev)
     [] ev.op = "call"      -> CallClauses(W, S, ev)
     [] ev.op = "probe"     -> ProbeClauses(W, S, ev)
+    [] ev.op = "explore"   -> ExploreClauses(W, S, ev)
+    [] ev.op = "select"    -> SelectClauses(W, S, ev)
     [] OTHER -> [ known_event |-> FALSE ]
 Effect(W, S, ev) ==
   CASE ev.op = "construct" -> IF ev.exc = "none" THEN ConstructEffect(W, S, ev) ELSE S
@@ -357,4 +485,6 @@ Effect(W, S, ev) ==
     [] ev.op \in {"l_append", "l_extend", "l_assign", "l_clear", "l_setitem"} -> ListEffect(W, S, ev)
     [] ev.op = "call"      -> CallEffect(W, S, ev)
     [] ev.op = "probe"     -> S
+    [] ev.op = "explore"   -> ExploreEffect(W, S, ev)
+    [] ev.op = "select"    -> S
 =============================================================================
